@@ -18,8 +18,11 @@ pub fn verif_string_from_utf8(v: Vec<u8>) -> (r: Result<String, Error>) { unimpl
 pub fn verif_default_ne<C: default::Constraint>(value: &C::Owned) -> bool { C::DEFAULT_VALUE.ne(value) }
 
 /// R4: `s.chars().count()` (number of Unicode scalar values; std iterator code)
+pub uninterp spec fn str_char_count(s: &str) -> nat;
 #[verifier::external_body]
-pub fn verif_str_char_count(s: &str) -> (n: usize) { s.chars().count() }
+pub fn verif_str_char_count(s: &str) -> (n: usize)
+    ensures n == str_char_count(s)
+{ s.chars().count() }
 
 /// stand-in for the macro-generated `impl Number for u64` (impl_number!): needed only because `u64` is the default type
 /// argument of `numbers::Integer`; the methods of unit uper are verified for an arbitrary `T: Number`
